@@ -21,8 +21,15 @@ var (
 )
 
 // String returns the canonical rendering of v.
-func String(v any) string {
+func String(v any) (out string) {
 	var b strings.Builder
+	// A value damaged through memory it shares with something else may not even be printable
+	// (e.g. a big integer whose words were overwritten): render that as a difference, not a crash.
+	defer func() {
+		if p := recover(); p != nil {
+			out = b.String() + fmt.Sprintf("<UNPRINTABLE: %v>", p)
+		}
+	}()
 	walk(&b, reflect.ValueOf(v), false, 0)
 	return b.String()
 }
